@@ -350,12 +350,174 @@ class Aligner:
         la = [s for s in la if s and s.get("kind") != "NullStmt"]
         lb = [s for s in lb if s and s.get("kind") != "NullStmt"]
         la, lb = _sort_clear_runs(la), _sort_clear_runs(lb)
-        for i in range(max(len(la), len(lb))):
+        i = j = 0
+        while i < len(la) or j < len(lb):
             if i >= len(la):
-                raise Diff(None, lb[i], "extra statement in the variant")
-            if i >= len(lb):
+                raise Diff(None, lb[j], "extra statement in the variant")
+            if j >= len(lb):
                 raise Diff(la[i], None, "statement missing in the variant")
-            self.same(la[i], lb[i])
+            try:
+                self.same(la[i], lb[j])
+                i += 1
+                j += 1
+            except Diff as d:
+                # the two sides may say the same thing differently (if/else vs conditional expression, De Morgan, early return vs
+                # else): decide by comparing the *effects* of short statement windows under every valuation of their conditions
+                step = None
+                for wa, wb in ((1, 1), (1, 2), (2, 1), (2, 2)):
+                    if i + wa <= len(la) and j + wb <= len(lb) and self.effects_equal(la[i:i + wa], lb[j:j + wb]):
+                        step = (wa, wb)
+                        break
+                if step is None:
+                    raise d
+                i += step[0]
+                j += step[1]
+
+    # ---- equivalence of small statement windows by effect tables --------------------------------------------------
+    class _Need(Exception):
+        def __init__(self, atom):
+            self.atom = atom
+
+    class _Giveup(Exception):
+        pass
+
+    BOOL_OPS = ("&&", "||")
+
+    def _atom_key(self, e, side):
+        return canon(e, self.rename if side == "b" else None)
+
+    def _bool(self, e, val, side):
+        """Truth value of a condition under the valuation `val` (atom text -> bool)."""
+        e = _u(self.rewrite(_u(e))) if side == "b" else _u(e)
+        e = _norm_nulltest(e)
+        k = e.get("kind")
+        ks = kids(e)
+        if k == "CXXBoolLiteralExpr":
+            return bool(e.get("value"))
+        if k == "UnaryOperator" and e.get("opcode") == "!":
+            return not self._bool(ks[0], val, side)
+        if k == "BinaryOperator" and e.get("opcode") == "&&":
+            return self._bool(ks[0], val, side) and self._bool(ks[1], val, side)
+        if k == "BinaryOperator" and e.get("opcode") == "||":
+            return self._bool(ks[0], val, side) or self._bool(ks[1], val, side)
+        if k == "ConditionalOperator":
+            return self._bool(ks[1], val, side) if self._bool(ks[0], val, side) else self._bool(ks[2], val, side)
+        neg = False
+        key = None
+        if k == "BinaryOperator" and e.get("opcode") in ("==", "!="):
+            a, b = sorted([self._atom_key(ks[0], side), self._atom_key(ks[1], side)])
+            key = "%s == %s" % (a, b)
+            neg = e.get("opcode") == "!="
+        elif k == "CXXOperatorCallExpr" and len(ks) == 3 and _u(ks[0]).get("referencedDecl", {}).get("name") in ("operator==", "operator!="):
+            a, b = sorted([self._atom_key(ks[1], side), self._atom_key(ks[2], side)])
+            key = "%s == %s" % (a, b)
+            neg = _u(ks[0]).get("referencedDecl", {}).get("name") == "operator!="
+        elif k == "BinaryOperator" and e.get("opcode") in ("<", ">", "<=", ">=") and all("int" in dqt(x) or "long" in dqt(x) or "size_t" in qt(x) for x in ks):
+            a, b = self._atom_key(ks[0], side), self._atom_key(ks[1], side)
+            op = e.get("opcode")
+            if op == "<":
+                key = "%s < %s" % (a, b)
+            elif op == ">":
+                key = "%s < %s" % (b, a)
+            elif op == ">=":
+                key, neg = "%s < %s" % (a, b), True
+            else:
+                key, neg = "%s < %s" % (b, a), True
+        else:
+            key = self._atom_key(e, side)
+        if key not in val:
+            raise Aligner._Need(key)
+        return val[key] != neg
+
+    def _run(self, stmts, val, side, out):
+        """Effects of a statement window: list of ('ret', node|bool|None) / ('do', node).  Returns True if a return was executed."""
+        for s in stmts:
+            s0 = _u(s)
+            k = s0.get("kind")
+            if k == "CompoundStmt":
+                if self._run([x for x in kids(s0) if x], val, side, out):
+                    return True
+            elif k == "IfStmt":
+                if s0.get("hasInit") or s0.get("hasVar"):
+                    raise Aligner._Giveup()
+                c, t, e = if_parts(s0)
+                br = t if self._bool(c, val, side) else e
+                if br is not None and self._run([br], val, side, out):
+                    return True
+            elif k == "ReturnStmt":
+                ks = kids(s0)
+                if ks and qt(_u(ks[0])) == "bool":
+                    try:
+                        out.append(("ret", self._bool(ks[0], val, side)))
+                    except Aligner._Giveup:
+                        out.append(("ret", ks[0]))
+                else:
+                    out.append(("ret", self._value(ks[0], val, side) if ks else None))
+                return True
+            elif k in ("ForStmt", "WhileStmt", "DoStmt", "CXXForRangeStmt", "SwitchStmt", "DeclStmt", "BreakStmt", "ContinueStmt"):
+                out.append(("do", s0))
+            elif k == "BinaryOperator" and s0.get("opcode") == "=":
+                l, r = kids(s0)
+                out.append(("asg", l, self._value(r, val, side)))
+            else:
+                out.append(("do", s0))
+        return False
+
+    def _value(self, e, val, side):
+        e0 = _u(e)
+        if e0.get("kind") == "ConditionalOperator":
+            ks = kids(e0)
+            return self._value(ks[1] if self._bool(ks[0], val, side) else ks[2], val, side)
+        return e
+
+    def effects_equal(self, wa, wb):
+        if not any(_u(x).get("kind") in ("IfStmt", "ReturnStmt", "BinaryOperator", "CompoundStmt") for x in wa + wb):
+            return False
+        # only worth trying when at least one side has a branch, a conditional expression or a boolean return
+        atoms = []
+        leaves = [0]
+
+        def same_node(x, y):
+            if isinstance(x, bool) or isinstance(y, bool) or x is None or y is None:
+                if isinstance(x, dict) and isinstance(y, bool):
+                    return _u(x).get("kind") == "CXXBoolLiteralExpr" and bool(_u(x).get("value")) == y
+                if isinstance(y, dict) and isinstance(x, bool):
+                    return _u(y).get("kind") == "CXXBoolLiteralExpr" and bool(_u(y).get("value")) == x
+                return x is y or x == y
+            try:
+                self.same(x, y)
+                return True
+            except Diff:
+                return False
+
+        def explore(val):
+            leaves[0] += 1
+            if leaves[0] > 600:
+                raise Aligner._Giveup()
+            try:
+                oa, ob = [], []
+                self._run(wa, val, "a", oa)
+                self._run(wb, val, "b", ob)
+            except Aligner._Need as nd:
+                for v in (False, True):
+                    v2 = dict(val)
+                    v2[nd.atom] = v
+                    if not explore(v2):
+                        return False
+                return True
+            if len(oa) != len(ob):
+                return False
+            for x, y in zip(oa, ob):
+                if x[0] != y[0]:
+                    return False
+                for p, q in zip(x[1:], y[1:]):
+                    if not same_node(p, q):
+                        return False
+            return True
+        try:
+            return explore({})
+        except (Aligner._Giveup, AnalysisBroken):
+            return False
 
     def same(self, a, b):
         a, b = _u(a) if a else a, _u(self.rewrite(_u(b))) if b else b
